@@ -697,6 +697,10 @@ where
         while let Ok(wg) = self.clear_rx.try_recv() {
             wg.done();
         }
+        // An insert that passed its closed check before the close began may have queued its
+        // item while the cache was being emptied: hand such late items back (on_evict) as the
+        // very last step, instead of letting them vanish with the channel.
+        let _ = CacheCleaner::new(self).clean();
     }
 
     #[inline]
